@@ -34,6 +34,10 @@ func sniffHTTPHostHeader(data []byte) (string, error) {
 		if len(line) == 0 {
 			break
 		}
+		if line[0] == ' ' || line[0] == '\t' {
+			// obs-fold continuation of the previous field value (RFC 9112 section 5.2), never a field line.
+			continue
+		}
 		key, value, found := bytes.Cut(line, httpHeaderSep)
 		if !found {
 			// Bad key value.
